@@ -68,6 +68,15 @@ func (d *ndpDriver) realtime(variant int) {
 	c.mu.Unlock()
 	u := d.u
 	sleepUntil := func(ms int) { time.Sleep(time.Until(t0.Add(time.Duration(ms) * time.Millisecond))) }
+	// loop numbers are given in the order the loop goroutines announce themselves: wait for the loop of an effective
+	// StartHunt before the next call, so that the numbering follows the call order even on a loaded machine
+	startHunt := func(a packet.Addr) {
+		n0, e0 := c.nLoops(), c.nEvents()
+		d.h.StartHunt(a)
+		if c.countSinceB1(e0, "start") > 0 {
+			c.waitFor(5*time.Second, func() bool { return len(c.order) > n0 })
+		}
+	}
 	ra := func(src, rmac string) {
 		for i := 0; i < 4; i++ { // every 4th RA of the process is processed
 			rec := map[string]interface{}{}
@@ -83,13 +92,13 @@ func (d *ndpDriver) realtime(variant int) {
 	}
 	a1 := packet.Addr{MAC: u.HuntMAC("m1"), IP: u.HuntIP("l1")}
 	a2 := packet.Addr{MAC: u.HuntMAC("m2")} // address-less
-	d.h.StartHunt(a1) // no router yet: nothing may be sent
+	startHunt(a1) // no router yet: nothing may be sent
 	sleepUntil(300)
 	ra("r1", "rm1")
 	sleepUntil(500)
-	d.h.StartHunt(a2)
-	d.h.StartHunt(a1) // idempotent
-	d.h.StartHunt(packet.Addr{MAC: u.HuntMAC("m3"), IP: u.HuntIP("g1")}) // ignored
+	startHunt(a2)
+	startHunt(a1) // idempotent
+	startHunt(packet.Addr{MAC: u.HuntMAC("m3"), IP: u.HuntIP("g1")}) // ignored
 	sleepUntil(3600 + 200*(variant%3))
 	if variant%2 == 1 {
 		ra("r2", "rm2")
